@@ -134,7 +134,10 @@ func profileConfig(p string, seed uint64) RunConfig {
 		c.Steps = 12 + r.IntN(40)
 		c.Oracles = []string{"C17"}
 		c.NoPeek = true
-		if r.IntN(3) == 0 {
+		if r.IntN(30) == 0 {
+			c.EarlyStop = true
+			c.Steps = 0
+		} else if r.IntN(3) == 0 {
 			// phase A: this configuration in lock-step; phase B: the same action list
 			// free-running (free.go)
 			c.FreeRun = true
@@ -159,6 +162,9 @@ func profileConfig(p string, seed uint64) RunConfig {
 			c.RetransMs = pick(r, 137, 311)
 			c.AutoAnswer = false
 		}
+	case "C20":
+		c.Startup = startupPlan(seed)
+		c.Steps = 0
 	case "C18":
 		c.Interpose = false
 		c.KernLatency = pick(r, 0, 1, 7, 40)
